@@ -67,6 +67,16 @@ class Ctx:
             self.discharged = []
             self.violation('proof obligations of Properties/%s.v no longer check' % self.pid,
                            {'broken': 'Properties/%s.v' % self.pid, 'log': logtxt[-3000:]}, found_input=False)
+        if ok and self.tier == 'thorough' and not os.environ.get('VERIF_NO_COQCHK'):
+            # independent re-check of the compiled property file and everything it depends on
+            import subprocess
+            p = subprocess.run(['timeout', '3000', 'coqchk', '-silent', '-o', '-Q', '.', 'RDM', 'RDM.Properties.' + self.pid],
+                               cwd=core.COQ, capture_output=True, text=True)
+            summary = p.stdout[p.stdout.find('CONTEXT SUMMARY'):][:1500] if 'CONTEXT SUMMARY' in p.stdout else (p.stdout + p.stderr)[-800:]
+            self.axioms['coqchk'] = summary
+            if p.returncode != 0 or '* Axioms: <none>' not in p.stdout:
+                self.violation('coqchk does not accept Properties/%s.vo without axioms' % self.pid,
+                               {'broken': 'coqchk RDM.Properties.%s' % self.pid, 'log': summary}, found_input=False)
         allowed = set(ALLOWED_AXIOMS)
         for b in blocks:
             for a in b:
